@@ -140,9 +140,11 @@ func (t *IntervalAwareForceTicker) Stop() {
 	t.resetMtx.Lock()
 	defer t.resetMtx.Unlock()
 
+	vtrace(t, "tkStopBegin")
 	t.ticker.Stop()
 	close(t.quit)
 	t.wg.Wait()
+	vtrace(t, "tkStopEnd")
 }
 
 // ResetWithInterval restarts the ticker with the given interval, causing the
@@ -151,6 +153,7 @@ func (t *IntervalAwareForceTicker) ResetWithInterval(newInterval time.Duration) 
 	t.resetMtx.Lock()
 	defer t.resetMtx.Unlock()
 
+	vtrace(t, "tkResetBegin")
 	// Shutdown the internal clock ticker without changing isActive.
 	t.ticker.Stop()
 	close(t.quit)
@@ -167,6 +170,7 @@ func (t *IntervalAwareForceTicker) ResetWithInterval(newInterval time.Duration) 
 
 	// Restart the actual run loop now that we have a new ticker.
 	t.start()
+	vtrace(t, "tkResetEnd")
 }
 
 // Reset restarts the ticker interval, causing the next clock tick to occur in
